@@ -203,6 +203,7 @@ Fixpoint dedup (l : list N) : list N :=
 Section WithApply.
 Variable apply : sroot -> block -> option sroot.
 Variable f7_fixed : bool.
+Variable f27_fixed : bool.    (* fixes/F27_blockno_zero.diff: isMainChain no longer skips the height test for number 0 *)
 Variable orphan_cap : nat.   (* OrphanPool.maxCnt *)
 
 (** executeBlock of one block on the current state root (main-chain connection and
@@ -230,7 +231,7 @@ Definition store_side (n : node) (b : block) : node := emit n (store_unit b).
 (** chaindb.go:isMainChain *)
 Definition is_main_chain (n : node) (b : block) : option bool :=
   let bestno := no (best n) in
-  if (0 <? no b) && negb (no b =? bestno + 1) then Some false
+  if (f27_fixed || (0 <? no b)) && negb (no b =? bestno + 1) then Some false
   else match get_hash_by_no (dur n) bestno with
        | Some h => Some (prev b =? h)
        | None => None
